@@ -17,8 +17,9 @@ def split_setup(e, core, bps, sr, K):
     """common symbolic set-up: returns (D, data, n, B, P, calls, validator)"""
     D, data = byt.sym_audio(e, "D", bps)
     n = D.nsamples
-    B = I("B")
-    e.assume(z3.And(B >= 1, n <= K * B))
+    B, Bq, Br = I("B"), I("Bq"), I("Br")
+    # the analysis window is given with quarter-sample resolution: aw = Bq/(4*rate), effective window B = floor(Bq/4) samples
+    e.assume(z3.And(Bq == 4 * B + Br, Br >= 0, Br < 4, B >= 1, n <= K * B))
     P = {"mn": I("min_length"), "mx": I("max_length"), "ms": I("mcs")}
     e.assume(z3.And(P["mn"] >= 1, P["mn"] <= P["mx"], P["ms"] >= 0, P["ms"] < P["mx"]))
     seq = iter([SymInt(P["mn"]), SymInt(P["mx"]), SymInt(P["ms"])])
@@ -29,6 +30,7 @@ def split_setup(e, core, bps, sr, K):
         k = len(calls)
         calls.append(frame)
         return SymBool(z3.Bool("v%d" % k))
+    split_setup.aw = SymRat(Bq, 4 * sr)
     return D, data, n, B, P, calls, validator
 
 
@@ -76,7 +78,7 @@ def harness(L, sw, ch, sr, K, mode, via):
         D, data, n, B, P, calls, validator = split_setup(e, core, bps, sr, K)
         meta = dict(sw=sw, ch=ch, sr=sr, K=K, mode=mode, via=via)
         kw = dict(min_dur=1, max_dur=1, max_silence=1, drop_trailing_silence=drop, strict_min_dur=strict,
-                  analysis_window=SymRat(B, sr), validator=validator)
+                  analysis_window=split_setup.aw, validator=validator)
         try:
             if via == "function":
                 regs = list(core.split(data, sr=sr, sw=sw, ch=ch, **kw))
@@ -109,6 +111,78 @@ def harness(L, sw, ch, sr, K, mode, via):
     return path
 
 
+def wiring_harness(L, sw, ch, sr, uc):
+    """the built-in validator is built from exactly the requested threshold and channel selection and the input's format"""
+    core = L.modules["core"]
+    bps = sw * ch
+
+    def path(e):
+        D, data = byt.sym_audio(e, "D", bps)
+        e.assume(D.nsamples <= 2)
+        seen = []
+
+        class Rec:
+            def __init__(self, energy_threshold, sample_width, channels, use_channel=None):
+                seen.append((energy_threshold, sample_width, channels, use_channel))
+
+            def is_valid(self, d):
+                return False
+        core.DataValidator.register(Rec)
+        orig = core.AudioEnergyValidator
+        core.AudioEnergyValidator = Rec
+        eth = I("eth8")
+        meta = dict(kind="wiring", sw=sw, ch=ch, sr=sr, uc=uc)
+        core._duration_to_nb_windows = lambda d, *a, **k: {0.2: 1, 5: 2, 0.3: 0}[d]
+        try:
+            list(core.split(data, sr=sr, sw=sw, ch=ch, analysis_window=SymRat(1, sr), energy_threshold=SymRat(eth, 8), use_channel=uc))
+            list(core.AudioRegion(data, sr, sw, ch).split(analysis_window=SymRat(1, sr), eth=SymRat(eth, 8), uc=uc))
+            list(core.split(data, sr=sr, sw=sw, ch=ch, analysis_window=SymRat(1, sr)))
+        except Exception as ex:
+            m = e.model()
+            return {"status": "cex", "failing": ["raised %s: %s" % (type(ex).__name__, str(ex)[:80])], "cex": dict(meta, eth8=byt.iv(m, eth), n=byt.iv(m, D.nsamples))}
+        finally:
+            core.AudioEnergyValidator = orig
+        conds = {"three validators built": len(seen) == 3}
+        if len(seen) == 3:
+            for i in (0, 1):
+                conds[("threshold reaches the validator unchanged", i)] = SymRat.of(seen[i][0]).eqz(SymRat(eth, 8))
+                conds[("format and selection reach the validator", i)] = (seen[i][1], seen[i][2], seen[i][3]) == (sw, ch, uc)
+            conds["defaults"] = (seen[2][0], seen[2][3]) == (50, None)
+        return tok.discharge(e, conds, lambda m: dict(meta, eth8=byt.iv(m, eth), n=byt.iv(m, D.nsamples)))
+    return path
+
+
+def replay_wiring(c):
+    ak = loader.real_auditok()
+    import auditok.core as rcore
+    seen = []
+
+    class Rec(rcore.DataValidator):
+        def __init__(self, energy_threshold, sample_width, channels, use_channel=None):
+            seen.append((energy_threshold, sample_width, channels, use_channel))
+
+        def is_valid(self, d):
+            return False
+    orig = rcore.AudioEnergyValidator
+    rcore.AudioEnergyValidator = Rec
+    sw, ch, sr = c["sw"], c["ch"], c["sr"]
+    data = byt.concrete_bytes(c["n"] * sw * ch)
+    eth = c["eth8"] / 8
+    try:
+        list(ak.split(data, sr=sr, sw=sw, ch=ch, analysis_window=1 / sr, energy_threshold=eth, use_channel=c["uc"]))
+        list(ak.AudioRegion(data, sr, sw, ch).split(analysis_window=1 / sr, eth=eth, uc=c["uc"]))
+        list(ak.split(data, sr=sr, sw=sw, ch=ch, analysis_window=1 / sr))
+    except Exception as ex:
+        return [("C05: split with the built-in validator raises %s" % type(ex).__name__, str(ex))]
+    finally:
+        rcore.AudioEnergyValidator = orig
+    want = [(eth, sw, ch, c["uc"]), (eth, sw, ch, c["uc"]), (50, sw, ch, None)]
+    if seen != want:
+        return [("C05: activity decisions are not taken with the requested threshold / channel selection",
+                 "split(energy_threshold=%r, use_channel=%r) on %d-byte samples x %d channels builds validators %s, expected %s" % (eth, c["uc"], sw, ch, seen, want))]
+    return []
+
+
 def now(e, why, D, B, P, calls, meta):
     m = e.model()
     if m is None:
@@ -118,7 +192,7 @@ def now(e, why, D, B, P, calls, meta):
 
 def mk(m, D, B, P, calls, meta):
     c = dict(meta)
-    c.update(n=byt.iv(m, D.nsamples), B=byt.iv(m, B), min_length=byt.iv(m, P["mn"]), max_length=byt.iv(m, P["mx"]), mcs=byt.iv(m, P["ms"]),
+    c.update(n=byt.iv(m, D.nsamples), B=byt.iv(m, B), Bq=byt.iv(m, I("Bq")), min_length=byt.iv(m, P["mn"]), max_length=byt.iv(m, P["mx"]), mcs=byt.iv(m, P["ms"]),
              valid=[byt.bv(m, z3.Bool("v%d" % k)) for k in range(max(len(calls), meta["K"]))])
     return c
 
@@ -141,7 +215,7 @@ def concrete_split(ak, c, data, via=None, extra=None):
         calls.append(frame)
         return valid[k] if k < len(valid) else False
     kw = dict(min_dur=1, max_dur=1, max_silence=1, drop_trailing_silence=bool(c["mode"] & 4), strict_min_dur=bool(c["mode"] & 2),
-              analysis_window=B / sr, validator=validator)
+              analysis_window=c.get("Bq", 4 * B) / (4 * sr), validator=validator)
     if extra:
         kw.update(extra)
     try:
@@ -155,10 +229,12 @@ def concrete_split(ak, c, data, via=None, extra=None):
 
 
 def replay_fn(c):
+    if c.get("kind") == "wiring":
+        return replay_wiring(c)
     ak = loader.real_auditok()
     sw, ch, sr, B, n = c["sw"], c["ch"], c["sr"], c["B"], c["n"]
     bps = sw * ch
-    if int((B / sr) * sr) != B:
+    if int((c.get("Bq", 4 * B) / (4 * sr)) * sr) != B:
         return []
     data = byt.concrete_bytes(n * bps)
     desc = "split(%d samples sw=%d ch=%d sr=%d, window=%d samples, counts=(%d,%d,%d), mode=%d, decisions=%s, via %s)" % (
@@ -199,7 +275,7 @@ def run(rep):
     rep.hashes = L.hashes
     tier = rep.tier
     K = b["K"]
-    rep.bounds = {"windows": "at most %d analysis windows (n <= %d*B); sample count n and window size B unbounded integers, partial last window allowed" % (K, K),
+    rep.bounds = {"windows": "at most %d analysis windows (n <= %d*B); sample count n unbounded; analysis_window = Bq/(4*rate) with Bq an unbounded integer (quarter-sample resolution, effective window B = floor(Bq/4) samples); partial last window allowed" % (K, K),
                   "window counts": "min/max/silence counts unbounded integers (stub for _duration_to_nb_windows)",
                   "enumerated": "formats %s, rates %s, 4 modes, split() function and AudioRegion.split method" % (byt.fmts(tier), byt.rates(tier)[:2])}
     rep.explanation = ("Real split -> AudioReader -> BufferAudioSource -> StreamTokenizer -> _make_audio_region -> AudioRegion chain executed on "
@@ -221,3 +297,9 @@ def run(rep):
         ex = explore(harness(L, sw, ch, sr, K, mode, via))
         rep.add_exploration(hn, ex)
         tok.handle_cex(rep, hn, ex, replay_fn, ideal=True)
+    for (sw, ch) in fm[:2]:
+        for uc in (None, "mix", 0, -1):
+            hn = "validator-wiring[sw=%d,ch=%d,uc=%r]" % (sw, ch, uc)
+            ex = explore(wiring_harness(L, sw, ch, 10, uc), workers=1)
+            rep.add_exploration(hn, ex)
+            tok.handle_cex(rep, hn, ex, replay_fn)
